@@ -32,6 +32,10 @@ type Engine struct {
 	extObserved []types.Type
 	chanDecls   []*ChanDecl
 	guardAssume    []string // assumptions of the guarded-by check
+	guardIfaceSites map[*ssa.MakeInterface][]string // interface hand-overs to library calls that need a foreign lock held
+	escIface       map[*ssa.Function][]*ssa.MakeInterface
+	escWrapper     map[*ssa.Function][]*ssa.Function
+	escSoft        map[*ssa.Function]bool
 	lemmas         []*LemmaDecl
 	globals        []*GlobalFact
 	preds          map[string]*SpecFunc
